@@ -71,7 +71,8 @@ def _ctxmgr_shape(fdef):
         return None
     body = [n for n in fdef.body if not (isinstance(n, ast.Expr) and isinstance(n.value, ast.Constant))]
     if len(body) == 1 and isinstance(body[0], ast.Try) and not body[0].orelse and not body[0].finalbody and len(body[0].body) == 1 \
-            and isinstance(body[0].body[0], ast.Expr) and isinstance(body[0].body[0].value, ast.Yield) and body[0].body[0].value.value is None:
+            and isinstance(body[0].body[0], ast.Expr) and isinstance(body[0].body[0].value, ast.Yield):
+        # (a value given to `yield` only matters to `with ... as name`, which the desugaring below does not accept)
         return body[0]
     return None
 
